@@ -1,12 +1,23 @@
 import Sigc.Model
 import Sigc.Lemmas.Basic
 import Sigc.Lemmas.Frames
+import Sigc.Lemmas.StepConn
+import Sigc.Lemmas.StepHandles
+import Sigc.Lemmas.StepTrack
+import Sigc.Spec
 /-!
 # C14 — signal objects are shared handles; the slot list lives as long as any handle
-(first theorems; the complete family is being proved in Sigc/Lemmas/Step*.lean)
+
+Per-operation theorems about `stepSimple` / `gcImpl` / `ensureImpl` of the mechanism model, valid for
+**every** state (no well-formedness assumed), every program and fuel.
+
+History: proving `copy_shares` for assignment exposed a defect of the library — copy-*assignment* between
+two signal objects that both never had a list shared nothing (`signal_base::operator=` returned early on
+`src.impl_ == impl_`, both null).  It was repaired (`if (&src == this) return *this; impl_ = src.impl();`),
+the model follows the repaired code, and `asgG_shares` now holds without that exception.
 -/
 namespace Sigc.C14
-open Sigc.Model
+open Sigc.Model Sigc.StepConn Sigc.StepHandles Sigc.StepTrack
 
 /-- `ensureImpl` (`signal_base::impl()`): afterwards the handle has a list, which exists -/
 theorem ensureImpl_spec (s s' : St) (g i : Nat) (h : ensureImpl s g = some (s', i)) :
@@ -31,6 +42,157 @@ theorem ensureImpl_spec (s s' : St) (g i : Nat) (h : ensureImpl s g = some (s', 
       rw [hi] at h2
       cases h2
 
+example : (ensureImpl { G := [(0, { obj := 1, fl := .I, impl := none, trk := 2, lvl := 0 })], next := 3 } 0).map
+    (fun x => (x.2, x.1.G.map (fun p => p.2.impl), x.1.impls.map (·.1))) = some (3, [some 3], [3]) := by decide
+
+/-! ## copy_shares -/
+
+/-- copy construction: afterwards source and copy refer to the same list, which exists — it is the
+    source's list, or a fresh empty one created on demand (`src.impl()`) -/
+theorem cpG_shares (s s' : St) (r : String) (j i : Nat) (h0 : Handle)
+    (hi : aget s.G i = some h0) (hj : aget s.G j = none) (h : stepSimple s (.cpG j i) = some (s', r)) :
+    r = "ok" ∧ ∃ im hs hd, aget s'.G i = some hs ∧ aget s'.G j = some hd ∧ hs.impl = some im ∧ hd.impl = some im ∧
+      hd.fl = h0.fl ∧ hs.fl = h0.fl ∧ hd.lvl = h0.lvl ∧
+      ((h0.impl = some im ∧ s'.impls = s.impls) ∨ (h0.impl = none ∧ im = s.next ∧ s'.impls = aset s.impls s.next {})) := by
+  have hji : j ≠ i := by intro e; rw [e, hi] at hj; cases hj
+  obtain ⟨s1, im, he, hg1, hoth, _, _, _, _, _, hcase⟩ := ensureImpl_cases s i h0 hi
+  simp only [stepSimple, hi, hj, he, hg1] at h
+  simp [St.fresh] at h
+  obtain ⟨rfl, rfl⟩ := h
+  refine ⟨rfl, im, { h0 with impl := some im }, { obj := s1.next, fl := h0.fl, impl := some im, trk := s1.next + 1, lvl := h0.lvl },
+    ?_, by simp, rfl, rfl, rfl, rfl, rfl, ?_⟩
+  · simp [aget_aset_other _ _ _ _ (Ne.symm hji), hg1]
+  · rcases hcase with ⟨h1, rfl⟩ | ⟨h1, rfl, rfl⟩
+    · exact Or.inl ⟨h1, rfl⟩
+    · exact Or.inr ⟨h1, rfl, rfl⟩
+
+example : (stepSimple { G := [(0, { obj := 1, fl := .I, impl := none, trk := 2, lvl := 0 })], next := 3 } (.cpG 1 0)).map
+    (fun x => (x.1.G.map (fun p => p.2.impl), x.1.impls.map (·.1), x.1.next)) = some ([some 3, some 3], [3], 6) := by decide
+
+/-- copy assignment between distinct objects: afterwards both refer to the same existing list — the
+    source's list, or a fresh empty one created on demand when the source never had one (`src.impl()`),
+    also when neither object had a list before -/
+theorem asgG_shares (s s' : St) (r : String) (j i : Nat) (d h0 : Handle)
+    (hj : aget s.G j = some d) (hi : aget s.G i = some h0) (hfl : d.fl = h0.fl) (hlvl : d.lvl = h0.lvl) (hji : j ≠ i)
+    (h : stepSimple s (.asgG j i) = some (s', r)) :
+    r = "ok" ∧ ∃ im, aget s'.G i = some { h0 with impl := some im } ∧ aget s'.G j = some { d with impl := some im } ∧
+      (h0.impl = some im ∨ (h0.impl = none ∧ im = s.next)) := by
+  simp only [stepSimple, hj, hi] at h
+  rw [if_neg (by simp [hfl]), if_neg (by simp [hlvl]), if_neg hji] at h
+  obtain ⟨s1, im, he, hg1, hoth, _, _, _, _, _, hcase⟩ := ensureImpl_cases s i h0 hi
+  simp only [he] at h
+  have hor : h0.impl = some im ∨ (h0.impl = none ∧ im = s.next) := by
+    rcases hcase with ⟨h1, _⟩ | ⟨h1, h2, _⟩
+    · exact Or.inl h1
+    · exact Or.inr ⟨h1, h2⟩
+  have hj1 : aget s1.G j = some d := by rw [hoth j hji]; exact hj
+  by_cases hsame : d.impl = some im
+  · simp only [hsame, if_true, Option.some.injEq, Prod.mk.injEq] at h
+    obtain ⟨rfl, rfl⟩ := h
+    refine ⟨rfl, im, hg1, ?_, hor⟩
+    rw [hj1]; congr 1; cases d; simp_all
+  · simp only [hsame, if_false] at h
+    have hfin : ∀ (G' : List (Nat × Handle)), G' = aset s1.G j { d with impl := some im } →
+        aget G' i = some { h0 with impl := some im } ∧ aget G' j = some { d with impl := some im } := by
+      intro G' e
+      refine ⟨?_, by rw [e]; simp⟩
+      rw [e, aget_aset_other _ _ _ _ (Ne.symm hji), hg1]
+    cases hd : d.impl with
+    | none =>
+      simp only [hd, Option.some.injEq, Prod.mk.injEq] at h
+      obtain ⟨rfl, rfl⟩ := h
+      obtain ⟨a, b⟩ := hfin _ rfl
+      exact ⟨rfl, im, a, b, hor⟩
+    | some old =>
+      simp only [hd, Option.some.injEq, Prod.mk.injEq] at h
+      obtain ⟨rfl, rfl⟩ := h
+      rw [gcImpl_G]
+      obtain ⟨a, b⟩ := hfin _ rfl
+      exact ⟨rfl, im, a, b, hor⟩
+
+example : (stepSimple { G := [(0, { obj := 1, fl := .I, impl := some 7, trk := 2, lvl := 0 }),
+                              (1, { obj := 3, fl := .I, impl := none, trk := 4, lvl := 0 })],
+                        impls := [(7, {})], next := 8 } (.asgG 1 0)).map
+    (fun x => x.1.G.map (fun p => p.2.impl)) = some [some 7, some 7] := by decide
+
+/-- the history that exposed the (repaired) defect: two never-connected signal objects, assignment, then
+    a connect through the source is seen through the destination:
+    `newG 0 I; mvG 1 0; asgG 1 0; connfn 0 0 (fn 5); sizeq 0 → 1; sizeq 1 → 1` -/
+example :
+    let run := fun (s : Option (St × String)) (op : Op) => s.bind (fun x => stepSimple x.1 op)
+    let s4 := [Op.newG 0 (some .I), .mvG 1 0, .asgG 1 0, .connfn 0 0 (.fn 5) false].foldl run (some ({}, ""))
+    (run s4 (.sizeq 0)).map (·.2) = some "1" ∧ (run s4 (.sizeq 1)).map (·.2) = some "1" := by
+  decide
+
+/-- copy *construction* of a never-connected signal shares as well: `newG 0 I; cpG 1 0; connfn 0 0 (fn 5); sizeq 1 → 1` -/
+example :
+    let run := fun (s : Option (St × String)) (op : Op) => s.bind (fun x => stepSimple x.1 op)
+    let s3 := [Op.newG 0 (some .I), .cpG 1 0, .connfn 0 0 (.fn 5) false].foldl run (some ({}, ""))
+    (run s3 (.sizeq 1)).map (·.2) = some "1" := by
+  decide
+
+/-- two handles of one list are indistinguishable for every query and for `block` / `clear`: the result
+    and the successor state depend on the handle only through its `impl` -/
+theorem shared_handles_agree_queries (s : St) (g1 g2 : Nat) (h1 h2 : Handle)
+    (hg1 : aget s.G g1 = some h1) (hg2 : aget s.G g2 = some h2) (himpl : h1.impl = h2.impl) :
+    stepSimple s (.sizeq g1) = stepSimple s (.sizeq g2) ∧
+    stepSimple s (.emptyGq g1) = stepSimple s (.emptyGq g2) ∧
+    stepSimple s (.blockedGq g1) = stepSimple s (.blockedGq g2) ∧
+    (∀ b, stepSimple s (.blockG g1 b) = stepSimple s (.blockG g2 b)) ∧
+    stepSimple s (.clear g1) = stepSimple s (.clear g2) := by
+  refine ⟨?_, ?_, ?_, ?_, ?_⟩ <;> simp [stepSimple, hg1, hg2, himpl]
+
+example :
+    let s : St := { G := [(0, { obj := 1, fl := .I, impl := some 7, trk := 2, lvl := 0 }),
+                          (1, { obj := 3, fl := .I, impl := some 7, trk := 4, lvl := 0 })],
+                    impls := [(7, { cells := [{ id := 9, slot := { }, linked := true }] })], next := 10 }
+    (stepSimple s (.sizeq 0)).map (·.2) = some "1" ∧ (stepSimple s (.sizeq 1)).map (·.2) = some "1" := by
+  decide
+
+/-- an emission through either handle of one list is the same computation (same flavour, same list) —
+    for every program, fuel, argument and accumulator strategy -/
+theorem shared_handles_agree_emit (f : Nat) (P : Prog) (s : St) (g1 g2 arg : Nat) (st : Strat) (t : Bool) (h1 h2 : Handle)
+    (hg1 : aget s.G g1 = some h1) (hg2 : aget s.G g2 = some h2) (himpl : h1.impl = h2.impl) (hfl : h1.fl = h2.fl) :
+    execOp f P s (.emit g1 arg st t) = execOp f P s (.emit g2 arg st t) := by
+  cases f with
+  | zero => rw [execOp, execOp]
+  | succ f =>
+    rw [execOp, execOp]
+    simp only [hg1, hg2, himpl, hfl]
+
+example (f : Nat) (P : Prog) : execOp f P exStT (.emit 0 5 .sum false) = execOp f P exStT (.emit 1 5 .sum false) :=
+  shared_handles_agree_emit f P exStT 0 1 5 .sum false _ _ rfl rfl rfl rfl
+
+/-- connecting through either handle of one (existing) list inserts the same cell into the same list:
+    identical result and successor state -/
+theorem shared_handles_agree_connect (s : St) (g1 g2 im : Nat) (h1 h2 : Handle)
+    (hg1 : aget s.G g1 = some h1) (hg2 : aget s.G g2 = some h2) (hi1 : h1.impl = some im) (hi2 : h2.impl = some im)
+    (hfl : h1.fl = h2.fl) (hlvl : h1.lvl = h2.lvl) :
+    (∀ k spec first, stepSimple s (.connfn k g1 spec first) = stepSimple s (.connfn k g2 spec first)) ∧
+    (∀ k sv first mv, stepSimple s (.conn k g1 sv first mv) = stepSimple s (.conn k g2 sv first mv)) := by
+  constructor
+  · intro k spec first
+    simp only [stepSimple, hg1, hg2, hfl, hlvl]
+    cases hm : mkFun s h2.fl.isVoid spec with
+    | error e => rfl
+    | ok pr =>
+      obtain ⟨fn, s1⟩ := pr
+      simp only []
+      obtain ⟨_, _, _, _, hG⟩ := mkFun_frame s s1 _ spec fn hm
+      obtain ⟨a1, ha1, hia1, _⟩ := hG g1 h1 hg1
+      obtain ⟨a2, ha2, hia2, _⟩ := hG g2 h2 hg2
+      rw [ensureImpl_some s1 g1 im a1 ha1 (hia1.trans hi1), ensureImpl_some s1 g2 im a2 ha2 (hia2.trans hi2)]
+  · intro k sv first mv
+    cases hv : aget s.S sv with
+    | none => simp [stepSimple, hg1, hg2, hv]
+    | some v =>
+      simp only [stepSimple, hg1, hg2, hv, hfl, hlvl, ensureImpl_some s g1 im h1 hg1 hi1, ensureImpl_some s g2 im h2 hg2 hi2]
+
+example : stepSimple exStT (.connfn 7 0 (.fn 1) false) = stepSimple exStT (.connfn 7 1 (.fn 1) false) :=
+  (shared_handles_agree_connect exStT 0 1 3 _ _ rfl rfl rfl rfl rfl rfl).1 7 (.fn 1) false
+
+/-! ## move_transfers -/
+
 /-- move construction of a plain `sigc::signal` transfers the list: the new object has the source's
     list, the source has none (and is reusable) -/
 theorem mvG_transfers (s s' : St) (r : String) (j i : Nat) (h0 : Handle)
@@ -48,5 +210,419 @@ theorem mvG_transfers (s s' : St) (r : String) (j i : Nat) (h0 : Handle)
 example : ∃ s' r, stepSimple { G := [(0, { obj := 1, fl := .I, impl := some 5, trk := 2, lvl := 0 })], next := 9 } (.mvG 1 0) = some (s', r)
     ∧ (aget s'.G 0).map (·.impl) = some none ∧ (aget s'.G 1).map (·.impl) = some (some 5) := by
   refine ⟨_, _, rfl, ?_, ?_⟩ <;> simp [aget, aset, St.fresh, Flavour.isTrackable]
+
+/-- the moved-from source is reusable: connecting through a handle without list allocates a fresh list
+    holding exactly the new slot -/
+theorem connect_allocates_fresh (s : St) (k g fid : Nat) (first : Bool) (h0 : Handle)
+    (hg : aget s.G g = some h0) (hi : h0.impl = none) :
+    ∃ s', stepSimple s (.connfn k g (.fn fid) first) = some (s', "ok") ∧
+      aget s'.G g = some { h0 with impl := some s.next } ∧
+      aget s'.impls s.next = some { cells := [{ id := s.next + 1, slot := { blocked := false, rep := some { call := true, fn := some (.leaf fid []) } }, linked := true }] } ∧
+      aget s'.C k = some (some (s.next + 1)) ∧ s'.next = s.next + 2 := by
+  simp only [stepSimple, hg, mkFun, specTaint]
+  have hl : ¬ ((-1 : Int) ≥ (h0.lvl : Int)) := by omega
+  simp only [hl, if_false, ensureImpl_none s g h0 hg hi]
+  refine ⟨_, rfl, ?_, ?_, ?_, ?_⟩
+  · cases first <;> simp [insertCell, allocImpl, St.fresh, setConn, setImpl]
+  · cases first <;> simp [insertCell, allocImpl, St.fresh, setConn, setImpl]
+  · cases first <;> simp [insertCell, allocImpl, St.fresh, setConn, setImpl]
+  · cases first <;> simp [insertCell, allocImpl, St.fresh, setConn, setImpl]
+
+/-- move construction then connect through the source: the source gets a *fresh* list, the destination
+    keeps the transferred one -/
+example :
+    let run := fun (s : Option (St × String)) (op : Op) => s.bind (fun x => stepSimple x.1 op)
+    let s4 := [Op.newG 0 (some .I), .connfn 0 0 (.fn 5) false, .mvG 1 0, .connfn 1 0 (.fn 6) false].foldl run (some ({}, ""))
+    (s4.map (fun x => x.1.G.map (fun p => p.2.impl))) = some [some 7, some 3] ∧
+    (run s4 (.sizeq 0)).map (·.2) = some "1" ∧ (run s4 (.sizeq 1)).map (·.2) = some "1" := by
+  decide
+
+/-- move assignment (non-accumulated flavours, distinct objects): the destination takes the source's
+    list — also when both shared one list before (repaired F3) —, the source is left without a list -/
+theorem masgG_transfers (s s' : St) (r : String) (j i : Nat) (d h0 : Handle)
+    (hj : aget s.G j = some d) (hi : aget s.G i = some h0) (hfl : d.fl = h0.fl) (hlvl : d.lvl = h0.lvl)
+    (hacc : h0.fl.isAcc = false) (hji : j ≠ i) (h : stepSimple s (.masgG j i) = some (s', r)) :
+    r = "ok" ∧ aget s'.G j = some { d with impl := h0.impl } ∧ aget s'.G i = some { h0 with impl := none } := by
+  simp only [stepSimple, hj, hi] at h
+  rw [if_neg (by simp [hfl]), if_neg (by simp [hlvl])] at h
+  simp only [hacc, hji, if_false, Bool.false_eq_true, Option.some.injEq, Prod.mk.injEq] at h
+  obtain ⟨rfl, rfl⟩ := h
+  refine ⟨rfl, ?_, ?_⟩
+  · split <;> cases d.impl <;> simp [aget_aset_other _ _ _ _ hji]
+  · split <;> cases d.impl <;> simp
+
+example : (stepSimple { G := [(0, { obj := 1, fl := .I, impl := some 7, trk := 2, lvl := 0 }),
+                              (1, { obj := 3, fl := .I, impl := some 7, trk := 4, lvl := 0 })],
+                        impls := [(7, {})], next := 8 } (.masgG 1 0)).map
+    (fun x => x.1.G.map (fun p => p.2.impl)) = some [none, some 7] := by decide
+
+/-- self-move-assignment is the identity, for every flavour -/
+theorem masgG_self (s : St) (i : Nat) (h0 : Handle) (hi : aget s.G i = some h0) :
+    stepSimple s (.masgG i i) = some (s, "ok") := by
+  simp only [stepSimple, hi]
+  cases h0.fl.isAcc <;> simp
+
+example : stepSimple exStT (.masgG 0 0) = some (exStT, "ok") := masgG_self exStT 0 _ rfl
+
+/-- self-copy-assignment is the identity -/
+theorem asgG_self (s : St) (i : Nat) (h0 : Handle) (hi : aget s.G i = some h0) :
+    stepSimple s (.asgG i i) = some (s, "ok") := by
+  simp [stepSimple, hi]
+
+example : stepSimple exStT (.asgG 1 1) = some (exStT, "ok") := asgG_self exStT 1 _ rfl
+
+/-- the `accumulated` flavours declare no move constructor: moving is copying -/
+theorem mvG_acc_is_copy (s : St) (j i : Nat) (h0 : Handle) (hi : aget s.G i = some h0) (hacc : h0.fl.isAcc = true) :
+    stepSimple s (.mvG j i) = stepSimple s (.cpG j i) := by
+  simp only [stepSimple, hi, hacc, if_true]
+  cases hj : aget s.G j with
+  | some _ => rfl
+  | none =>
+    simp only []
+    obtain ⟨s1, im, he, hg1, _⟩ := ensureImpl_cases s i h0 hi
+    simp [he, hg1]
+
+example : (stepSimple { G := [(0, { obj := 1, fl := .TA, impl := none, trk := 2, lvl := 0 })], next := 3 } (.mvG 1 0)).map
+    (fun x => (x.1.G.map (fun p => (p.2.impl, p.2.trk)))) = some [(some 3, 2), (some 3, 5)] := by decide
+
+/-- … and move assignment is copy assignment -/
+theorem masgG_acc_is_copy_assign (s : St) (j i : Nat) (h0 : Handle) (hi : aget s.G i = some h0) (hacc : h0.fl.isAcc = true) :
+    stepSimple s (.masgG j i) = stepSimple s (.asgG j i) := by
+  cases hj : aget s.G j <;> simp [stepSimple, hi, hj, hacc]
+
+example : (stepSimple { G := [(0, { obj := 1, fl := .A, impl := some 7, trk := 2, lvl := 0 })], impls := [(7, {})], next := 8 } (.mvG 1 0)).map
+    (fun x => x.1.G.map (fun p => p.2.impl)) = some [some 7, some 7] := by decide
+
+/-! ## last_owner_teardown / lives_while_owned -/
+
+/-- a list some signal object still refers to is never torn down -/
+theorem lives_while_owned (s : St) (g i : Nat) (h0 : Handle) (hg : aget s.G g = some h0) (hi : h0.impl = some i) :
+    gcImpl s i = s :=
+  gcImpl_owned s i (refersTo_of_aget s.G g i h0 hg hi)
+
+example : gcImpl exStT 3 = exStT := lives_while_owned exStT 0 3 _ rfl rfl
+
+/-- a list whose emission is still running (a `signal_impl_holder` is alive) is never torn down, even
+    when no signal object refers to it any more -/
+theorem lives_while_emitting (s : St) (i : Nat) (im : Impl) (hi : aget s.impls i = some im) (hh : im.holders ≠ 0) :
+    gcImpl s i = s :=
+  gcImpl_held s i im hi hh
+
+example : gcImpl { impls := [(3, { holders := 1, exec := 1 })] } 3 = { impls := [(3, { holders := 1, exec := 1 })] } :=
+  lives_while_emitting _ 3 _ rfl (by decide)
+
+/-- when the last owner is gone (no signal object refers to the list, no holder is alive) the list
+    disappears with all its slots (their functor copies with them), every connection to one of its slots
+    is nulled (reports disconnected), every other connection, list, slot variable and handle is untouched -/
+theorem last_owner_teardown (s : St) (i : Nat) (im : Impl) (hi : aget s.impls i = some im) (hh : im.holders = 0)
+    (hr : refersTo s.G i = false) :
+    aget (gcImpl s i).impls i = none ∧
+    (∀ k, k ≠ i → aget (gcImpl s i).impls k = aget s.impls k) ∧
+    (∀ c, aget (gcImpl s i).C c = (aget s.C c).map (nullFL (im.cells.map (·.id)))) ∧
+    (∀ c, aget (gcImpl s i).K c = (aget s.K c).map (nullFL (im.cells.map (·.id)))) ∧
+    (gcImpl s i).S = s.S ∧ (gcImpl s i).G = s.G ∧ (gcImpl s i).T = s.T := by
+  refine ⟨?_, fun k hk => gcImpl_other s i k hk, ?_, ?_, gcImpl_S s i, gcImpl_G s i, gcImpl_T s i⟩
+  · rw [gcImpl_last s i im hi hh hr, nullConnsList_impls]; simp
+  · intro c; rw [gcImpl_last s i im hi hh hr, nullConnsList_C_entry]
+  · intro c; rw [gcImpl_last s i im hi hh hr, nullConnsList_K_entry]
+
+example :
+    let s : St := { impls := [(3, { cells := [{ id := 4, slot := { }, linked := true }] }), (6, { })],
+                    C := [(0, some 4), (1, some 9)], K := [(0, some 4)] }
+    ((gcImpl s 3).impls.map (·.1), (gcImpl s 3).C, (gcImpl s 3).K) = ([6], [(0, none), (1, some 9)], [(0, none)]) := by
+  decide
+
+/-- … so every connection that pointed into the dead list reports "not connected" afterwards -/
+theorem teardown_disconnects (s : St) (i c cid : Nat) (im : Impl) (hi : aget s.impls i = some im) (hh : im.holders = 0)
+    (hr : refersTo s.G i = false) (hc : aget s.C c = some (some cid)) (hmem : cid ∈ im.cells.map (·.id)) :
+    stepSimple (gcImpl s i) (.connectedq c) = some (gcImpl s i, "0") := by
+  obtain ⟨_, _, hC, _⟩ := last_owner_teardown s i im hi hh hr
+  have : aget (gcImpl s i).C c = some none := by
+    rw [hC c, hc]; simp [nullFL, hmem]
+  simp [stepSimple, this, connConnected, bstr]
+
+example :
+    let s : St := { impls := [(3, { cells := [{ id := 4, slot := { rep := some { call := true, fn := some (.leaf 1 []) } }, linked := true }] })],
+                    C := [(0, some 4)] }
+    (stepSimple s (.connectedq 0)).map (·.2) = some "1" ∧ (stepSimple (gcImpl s 3) (.connectedq 0)).map (·.2) = some "0" := by
+  decide
+
+/-- … and the functor copies the torn-down list held are released: `liveCount` drops by at least the
+    copies held by its cells, and by exactly that number when impl keys are unique -/
+theorem teardown_releases_functors (s : St) (i fid : Nat) (im : Impl) (hi : aget s.impls i = some im) (hh : im.holders = 0)
+    (hr : refersTo s.G i = false) :
+    liveCount (gcImpl s i) fid + implLive fid im ≤ liveCount s fid ∧
+    ((s.impls.map (·.1)).Nodup → liveCount (gcImpl s i) fid + implLive fid im = liveCount s fid) :=
+  gcImpl_last_liveCount s i im fid hi hh hr
+
+example :
+    let s : St := { impls := [(3, { cells := [{ id := 4, slot := { rep := some { call := true, fn := some (.leaf 1 []) } }, linked := true }] }),
+                              (6, { cells := [{ id := 5, slot := { rep := some { call := true, fn := some (.leaf 1 []) } }, linked := true }] })] }
+    liveCount s 1 = 2 ∧ liveCount (gcImpl s 3) 1 = 1 := by
+  decide
+
+/-- destroying a signal object: `~trackable` first (trackable flavours: the forwarders made from this
+    object are invalidated), then the handle goes, then the list is torn down iff this was the last owner -/
+theorem delG_eq (s : St) (g : Nat) (h0 : Handle) (hg : aget s.G g = some h0)
+    (hpin : (h0.everFwd && !h0.fl.isTrackable) = false) :
+    stepSimple s (.delG g) = some (
+      (let s1 := if h0.fl.isTrackable then invalidateTrackable s h0.trk else s
+       let s2 := { s1 with G := adel s1.G g }
+       match h0.impl with | some im => gcImpl s2 im | none => s2), "ok") := by
+  cases himpl : h0.impl <;> simp [stepSimple, hg, hpin, himpl]
+
+example : (stepSimple exStT (.delG 1)).map (·.2) = some "ok" := by
+  rw [delG_eq exStT 1 _ rfl rfl]; rfl
+
+/-- destroying the last signal object of a list (plain flavour, no emission running) tears the list
+    down: it is gone, and every connection into it reports disconnected -/
+theorem delG_last_owner (s s' : St) (r : String) (g i : Nat) (h0 : Handle) (im : Impl)
+    (hg : aget s.G g = some h0) (hpin : h0.everFwd = false) (htr : h0.fl.isTrackable = false) (himpl : h0.impl = some i)
+    (hi : aget s.impls i = some im) (hh : im.holders = 0) (hlast : refersTo (adel s.G g) i = false)
+    (h : stepSimple s (.delG g) = some (s', r)) :
+    r = "ok" ∧ aget s'.impls i = none ∧ aget s'.G g = none ∧
+    (∀ c, aget s'.C c = (aget s.C c).map (nullFL (im.cells.map (·.id)))) ∧ s'.S = s.S := by
+  rw [delG_eq s g h0 hg (by simp [hpin])] at h
+  simp only [htr, himpl] at h
+  simp at h
+  obtain ⟨rfl, rfl⟩ := h
+  obtain ⟨a, _, c, _, d, e, _⟩ := last_owner_teardown { s with G := adel s.G g } i im hi hh hlast
+  exact ⟨rfl, a, by rw [e]; simp, c, d⟩
+
+/-- … and destroying one of two owners leaves the list and all its connections alone -/
+theorem delG_not_last_owner (s s' : St) (r : String) (g g2 i : Nat) (h0 h2 : Handle)
+    (hg : aget s.G g = some h0) (hpin : h0.everFwd = false) (htr : h0.fl.isTrackable = false) (himpl : h0.impl = some i)
+    (hg2 : aget s.G g2 = some h2) (hne : g2 ≠ g) (himpl2 : h2.impl = some i)
+    (h : stepSimple s (.delG g) = some (s', r)) :
+    r = "ok" ∧ s'.impls = s.impls ∧ s'.C = s.C ∧ s'.K = s.K ∧ s'.S = s.S ∧ aget s'.G g = none ∧ aget s'.G g2 = some h2 := by
+  rw [delG_eq s g h0 hg (by simp [hpin])] at h
+  simp only [htr, himpl] at h
+  simp at h
+  obtain ⟨rfl, rfl⟩ := h
+  have h2' : aget (adel s.G g) g2 = some h2 := by rw [aget_adel_other _ _ _ hne]; exact hg2
+  rw [lives_while_owned { s with G := adel s.G g } g2 i h2 h2' himpl2]
+  exact ⟨rfl, rfl, rfl, rfl, rfl, by simp, h2'⟩
+
+example :
+    let run := fun (s : Option (St × String)) (op : Op) => s.bind (fun x => stepSimple x.1 op)
+    let s3 := [Op.newG 0 (some .I), .connfn 0 0 (.fn 5) false, .cpG 1 0].foldl run (some ({}, ""))
+    let s4 := run s3 (.delG 0)
+    let s5 := run s4 (.delG 1)
+    (run s4 (.sizeq 1)).map (·.2) = some "1" ∧ (run s4 (.connectedq 0)).map (·.2) = some "1" ∧
+    (run s5 (.connectedq 0)).map (·.2) = some "0" ∧ s5.map (fun x => x.1.impls.length) = some 0 := by
+  decide
+
+/-- reassigning the last handle of a list tears the old list down as well (copy assignment): handles
+    0 and 1 (same level) own different lists; `asgG 0 1` drops the last owner of the first list -/
+example :
+    let run := fun (s : Option (St × String)) (op : Op) => s.bind (fun x => stepSimple x.1 op)
+    let s6 := [Op.newG 0 (some .I), .connfn 0 0 (.fn 5) false, .cpG 1 0, .mvG 2 1, .connfn 1 1 (.fn 6) false, .delG 2].foldl run (some ({}, ""))
+    let s7 := run s6 (.asgG 0 1)
+    s6.map (fun x => x.1.impls.length) = some 2 ∧
+    (run s7 (.connectedq 0)).map (·.2) = some "0" ∧ (run s7 (.connectedq 1)).map (·.2) = some "1" ∧
+    (run s7 (.sizeq 0)).map (·.2) = some "1" ∧ s7.map (fun x => x.1.impls.length) = some 1 := by
+  decide
+
+/-! ## trackable flavours: exactly which signal-object operations notify
+
+`invVar t` is what `notify_callbacks()` of trackable `t` does to a slot variable (invalidate it iff its
+functor refers to `t`); the effect on list cells is `C18.*_dies_with_object`. -/
+
+/-- destroying a trackable_signal notifies its trackable base: every slot variable holding a forwarder
+    made from it is invalidated, no other slot variable changes -/
+theorem delG_notifies (s s' : St) (r : String) (g : Nat) (h0 : Handle)
+    (hg : aget s.G g = some h0) (ht : h0.fl.isTrackable = true) (h : stepSimple s (.delG g) = some (s', r)) :
+    s'.S = amap s.S (invVar h0.trk) := by
+  rw [delG_eq s g h0 hg (by simp [ht])] at h
+  simp only [ht, if_true, Option.some.injEq, Prod.mk.injEq] at h
+  obtain ⟨rfl, _⟩ := h
+  cases h0.impl <;> simp [gcImpl_S, invalidateTrackable_S]
+
+/-- destroying a plain signal notifies nobody -/
+theorem delG_plain_notifies_nobody (s s' : St) (r : String) (g : Nat) (h0 : Handle)
+    (hg : aget s.G g = some h0) (ht : h0.fl.isTrackable = false) (h : stepSimple s (.delG g) = some (s', r)) :
+    s'.S = s.S := by
+  simp only [stepSimple, hg, ht] at h
+  split at h
+  · simp at h; obtain ⟨rfl, _⟩ := h; rfl
+  · simp at h; obtain ⟨rfl, _⟩ := h
+    cases h0.impl <;> simp [gcImpl_S]
+
+/-- move construction from a trackable_signal (not `accumulated`) notifies the source's trackable base -/
+theorem mvG_notifies (s s' : St) (r : String) (j i : Nat) (h0 : Handle)
+    (hi : aget s.G i = some h0) (hj : aget s.G j = none) (ht : h0.fl.isTrackable = true) (hacc : h0.fl.isAcc = false)
+    (h : stepSimple s (.mvG j i) = some (s', r)) :
+    s'.S = amap s.S (invVar h0.trk) := by
+  simp only [stepSimple, hi, hj, hacc, ht] at h
+  simp [St.fresh] at h
+  obtain ⟨rfl, _⟩ := h
+  rw [invalidateTrackable_S]
+
+/-- move construction from a plain signal, or from an `accumulated` one (a copy), notifies nobody -/
+theorem mvG_notifies_nobody (s s' : St) (r : String) (j i : Nat) (h0 : Handle)
+    (hi : aget s.G i = some h0) (hno : h0.fl.isTrackable = false ∨ h0.fl.isAcc = true)
+    (h : stepSimple s (.mvG j i) = some (s', r)) :
+    s'.S = s.S := by
+  simp only [stepSimple, hi] at h
+  split at h
+  · simp at h; obtain ⟨rfl, _⟩ := h; rfl
+  · by_cases hacc : h0.fl.isAcc = true
+    · simp only [hacc, if_true] at h
+      obtain ⟨s1, im, he, _, _, hS1, _⟩ := ensureImpl_cases s i h0 hi
+      simp only [he] at h
+      simp [St.fresh] at h
+      obtain ⟨rfl, _⟩ := h
+      exact hS1
+    · have ht : h0.fl.isTrackable = false := by
+        rcases hno with h1 | h1
+        · exact h1
+        · exact absurd h1 hacc
+      simp only [hacc, ht] at h
+      simp [St.fresh] at h
+      obtain ⟨rfl, _⟩ := h
+      rfl
+
+/-- move assignment from a trackable_signal that has a list (not `accumulated`, not self) notifies the
+    source's trackable base -/
+theorem masgG_notifies (s s' : St) (r : String) (j i : Nat) (d h0 : Handle)
+    (hj : aget s.G j = some d) (hi : aget s.G i = some h0) (hfl : d.fl = h0.fl) (hlvl : d.lvl = h0.lvl) (hji : j ≠ i)
+    (ht : h0.fl.isTrackable = true) (hacc : h0.fl.isAcc = false) (hsome : h0.impl.isSome = true)
+    (h : stepSimple s (.masgG j i) = some (s', r)) :
+    s'.S = amap s.S (invVar h0.trk) := by
+  simp only [stepSimple, hj, hi] at h
+  rw [if_neg (by simp [hfl]), if_neg (by simp [hlvl])] at h
+  simp only [hacc, hji, if_false, Bool.false_eq_true, ht, hsome, Bool.and_self, if_true, Option.some.injEq, Prod.mk.injEq] at h
+  obtain ⟨rfl, _⟩ := h
+  rw [invalidateTrackable_S]
+  cases d.impl <;> simp [gcImpl_S]
+
+/-- move assignment notifies nobody when the source is a plain signal, an `accumulated` one (copy
+    assignment), has no list, or is the destination itself -/
+theorem masgG_notifies_nobody (s s' : St) (r : String) (j i : Nat) (h0 : Handle)
+    (hi : aget s.G i = some h0)
+    (hno : h0.fl.isTrackable = false ∨ h0.fl.isAcc = true ∨ h0.impl = none ∨ j = i)
+    (h : stepSimple s (.masgG j i) = some (s', r)) :
+    s'.S = s.S := by
+  simp only [stepSimple, hi] at h
+  cases hj : aget s.G j with
+  | none => simp [hj] at h; obtain ⟨rfl, _⟩ := h; rfl
+  | some d =>
+    simp only [hj] at h
+    split at h
+    · simp at h; obtain ⟨rfl, _⟩ := h; rfl
+    · split at h
+      · simp at h; obtain ⟨rfl, _⟩ := h; rfl
+      · by_cases hacc : h0.fl.isAcc = true
+        · simp only [hacc, if_true] at h
+          split at h
+          · simp at h; obtain ⟨rfl, _⟩ := h; rfl
+          · obtain ⟨s1, im, he, _, _, hS1, _⟩ := ensureImpl_cases s i h0 hi
+            simp only [he] at h
+            split at h
+            · simp at h; obtain ⟨rfl, _⟩ := h; exact hS1
+            · simp at h; obtain ⟨rfl, _⟩ := h
+              cases d.impl <;> simp [gcImpl_S, hS1]
+        · simp only [hacc] at h
+          by_cases hji : j = i
+          · simp [hji] at h; obtain ⟨rfl, _⟩ := h; rfl
+          · have hcond : (h0.fl.isTrackable && h0.impl.isSome) = false := by
+              rcases hno with h1 | h1 | h1 | h1
+              · simp [h1]
+              · exact absurd h1 hacc
+              · simp [h1]
+              · exact absurd h1 hji
+            simp only [hji, if_false, Bool.false_eq_true, hcond, Option.some.injEq, Prod.mk.injEq] at h
+            obtain ⟨rfl, _⟩ := h
+            cases d.impl <;> simp [gcImpl_S]
+
+/-- copy construction and copy assignment never notify: the copy gets its own trackable base and the
+    source keeps its registrations -/
+theorem copies_notify_nobody (s s' : St) (r : String) (j i : Nat) (op : Op) (hop : op = .cpG j i ∨ op = .asgG j i)
+    (h : stepSimple s op = some (s', r)) :
+    s'.S = s.S := by
+  rcases hop with rfl | rfl
+  · simp only [stepSimple] at h
+    cases hi : aget s.G i with
+    | none => simp [hi] at h; obtain ⟨rfl, _⟩ := h; rfl
+    | some h0 =>
+      simp only [hi] at h
+      split at h
+      · simp at h; obtain ⟨rfl, _⟩ := h; rfl
+      · obtain ⟨s1, im, he, hg1, _, hS1, _⟩ := ensureImpl_cases s i h0 hi
+        simp only [he, hg1] at h
+        simp [St.fresh] at h
+        obtain ⟨rfl, _⟩ := h
+        exact hS1
+  · simp only [stepSimple] at h
+    cases hi : aget s.G i with
+    | none =>
+      cases hj : aget s.G j <;> simp [hi, hj] at h <;> obtain ⟨rfl, _⟩ := h <;> rfl
+    | some h0 =>
+      cases hj : aget s.G j with
+      | none => simp [hi, hj] at h; obtain ⟨rfl, _⟩ := h; rfl
+      | some d =>
+        simp only [hi, hj] at h
+        split at h
+        · simp at h; obtain ⟨rfl, _⟩ := h; rfl
+        · split at h
+          · simp at h; obtain ⟨rfl, _⟩ := h; rfl
+          · split at h
+            · simp at h; obtain ⟨rfl, _⟩ := h; rfl
+            · obtain ⟨s1, im, he, _, _, hS1, _⟩ := ensureImpl_cases s i h0 hi
+              simp only [he] at h
+              split at h
+              · simp at h; obtain ⟨rfl, _⟩ := h; exact hS1
+              · simp at h; obtain ⟨rfl, _⟩ := h
+                cases d.impl <;> simp [gcImpl_S, hS1]
+
+/-- on the concrete state `exStT` (slot variable 0 holds a forwarder to trackable_signal object 0, whose
+    copy is object 1): destroying / moving from object 0 empties the variable, copying it, assigning it,
+    or destroying the copy does not -/
+example :
+    (stepSimple exStT (.delG 0)).map (fun x => x.1.S.map (fun p => p.2.slot.empty)) = some [true] ∧
+    (stepSimple exStT (.mvG 3 0)).map (fun x => x.1.S.map (fun p => p.2.slot.empty)) = some [true] ∧
+    (stepSimple exStT (.masgG 1 0)).map (fun x => x.1.S.map (fun p => p.2.slot.empty)) = some [true] ∧
+    (stepSimple exStT (.cpG 3 0)).map (fun x => x.1.S.map (fun p => p.2.slot.empty)) = some [false] ∧
+    (stepSimple exStT (.asgG 1 0)).map (fun x => x.1.S.map (fun p => p.2.slot.empty)) = some [false] ∧
+    (stepSimple exStT (.delG 1)).map (fun x => x.1.S.map (fun p => p.2.slot.empty)) = some [false] ∧
+    (stepSimple exStT (.masgG 0 0)).map (fun x => x.1.S.map (fun p => p.2.slot.empty)) = some [false] := by
+  decide
+
+/-! ## the specification `S` -/
+
+/-- in `S`, too, two handles of one list are indistinguishable for queries, `block` and `clear` -/
+theorem spec_shared_handles_agree_queries (s : Spec.LSt) (g1 g2 : Nat) (h1 h2 : Handle)
+    (hg1 : aget s.G g1 = some h1) (hg2 : aget s.G g2 = some h2) (himpl : h1.impl = h2.impl) :
+    Spec.stepSimple s (.sizeq g1) = Spec.stepSimple s (.sizeq g2) ∧
+    Spec.stepSimple s (.emptyGq g1) = Spec.stepSimple s (.emptyGq g2) ∧
+    Spec.stepSimple s (.blockedGq g1) = Spec.stepSimple s (.blockedGq g2) ∧
+    (∀ b, Spec.stepSimple s (.blockG g1 b) = Spec.stepSimple s (.blockG g2 b)) ∧
+    Spec.stepSimple s (.clear g1) = Spec.stepSimple s (.clear g2) := by
+  refine ⟨?_, ?_, ?_, ?_, ?_⟩ <;> simp [Spec.stepSimple, hg1, hg2, himpl]
+
+/-- in `S`, self-assignment (copy or move) of a signal object is the identity -/
+theorem spec_self_assign (s : Spec.LSt) (i : Nat) (h0 : Handle) (hi : aget s.G i = some h0) :
+    Spec.stepSimple s (.asgG i i) = some (s, "ok") ∧ Spec.stepSimple s (.masgG i i) = some (s, "ok") := by
+  constructor
+  · simp [Spec.stepSimple, hi]
+  · simp only [Spec.stepSimple, hi]
+    cases h0.fl.isAcc <;> simp
+
+/-- in `S`, move construction of a plain signal transfers the list and leaves the source without one -/
+theorem spec_mvG_transfers (s s' : Spec.LSt) (r : String) (j i : Nat) (h0 : Handle)
+    (hi : aget s.G i = some h0) (hj : aget s.G j = none) (hacc : h0.fl.isAcc = false) (ht : h0.fl.isTrackable = false)
+    (h : Spec.stepSimple s (.mvG j i) = some (s', r)) :
+    r = "ok" ∧ (∃ hd, aget s'.G j = some hd ∧ hd.impl = h0.impl ∧ hd.fl = h0.fl) ∧
+    (∃ hs, aget s'.G i = some hs ∧ hs.impl = none) ∧ s'.sigs = s.sigs := by
+  have hji : j ≠ i := by intro e; rw [e, hi] at hj; cases hj
+  simp only [Spec.stepSimple, hi, hj, hacc, ht] at h
+  simp [Spec.LSt.fresh] at h
+  obtain ⟨rfl, rfl⟩ := h
+  refine ⟨rfl, ⟨{ obj := s.next, fl := h0.fl, impl := h0.impl, trk := s.next + 1, lvl := h0.lvl }, by simp, rfl, rfl⟩,
+    ⟨{ h0 with impl := none }, ?_, rfl⟩, rfl⟩
+  simp [aget_aset_other _ _ _ _ (Ne.symm hji)]
+
+example : (Spec.stepSimple { G := [(0, { obj := 1, fl := .I, impl := some 5, trk := 2, lvl := 0 })], next := 9 } (.mvG 1 0)).map
+    (fun x => x.1.G.map (fun p => p.2.impl)) = some [none, some 5] := by decide
 
 end Sigc.C14
